@@ -61,7 +61,7 @@ func TestC20Malformed(t *testing.T) {
 		cmp := genCompressor(t, "compressor")
 		kind := rapid.SampledFrom([]string{
 			"hash_length", "hash_uppercase", "hash_nonhex", "size_negative", "size_nonnumeric", "size_overflow",
-			"reserved_keyword", "redundant_slash", "unknown_function", "unknown_compressor", "truncated",
+			"reserved_keyword", "redundant_slash", "unknown_function", "unknown_compressor", "truncated", "truncated",
 		}).Draw(t, "mutation")
 		c.Add(int(s.fn), s.hash, s.size, s.inst(), int(cmp), kind)
 
@@ -351,7 +351,11 @@ func TestC20Malformed(t *testing.T) {
 			}
 			if rapid.Bool().Draw(t, "by_component") {
 				// Drop 1..all trailing components.
-				keep := rapid.IntRange(0, len(full)-1).Draw(t, "keep")
+				drop := rapid.IntRange(1, len(full)).Draw(t, "drop")
+				if rapid.Bool().Draw(t, "drop_few") {
+					drop = min(len(full), rapid.IntRange(1, 4).Draw(t, "drop/few"))
+				}
+				keep := len(full) - drop
 				comps := full[:keep]
 				if rapid.Bool().Draw(t, "trailing_slash") {
 					comps = append(append([]string(nil), comps...), "")
